@@ -9,6 +9,8 @@ def main():
     if prop in ENGINE_S:
         level = "translation_validation" if prop == "C18" else "model_checking"
         sys.exit(subprocess.call([sys.executable, os.path.join(HERE, "driver.py"), prop, "--tier", tier, "--level", level]))
+    if prop == "C14":
+        sys.exit(subprocess.call([sys.executable, os.path.join(os.path.dirname(HERE), "mir", "c14.py"), "--tier", tier]))
     print("unknown property", prop)
     sys.exit(2)
 main()
